@@ -41,7 +41,9 @@ func loadSpec() (*spec.Spec, error) {
 	return theSpec, specErr
 }
 
-var insertAlphabet = []string{":", ";", "|", ".", "-", "[", "]", "{", "}", "(", ")", "'x'", `"s"`, "`r`", "tkq", "_rq", "!igq", "Q", "<< z >>", "$", "#", ",", "=", "<", "/"}
+var insertAlphabet = []string{":", ";", "|", ".", "-", "[", "]", "{", "}", "(", ")", "'x'", `"s"`, "`r`", "tkq", "_rq", "!igq", "Q", "<< z >>", "$", "#", ",", "=", "<", "/",
+	// malformed character literals (not tokens of the documented lexical syntax)
+	`'\x7g'`, `'\128'`, `'ab'`, `'\q'`, `'\u12'`, `'\U0000004_'`, `'\x4'`}
 
 var undefinedProdNames = []string{"Zz", "Undefined", "Q9", "Übung", "Ωmega", "Éa"}
 
